@@ -254,6 +254,10 @@ impl<'env> Executor<'env> {
         );
         let mut auto_escape_stack = vec![];
         let mut next_loop_recursion_jump = None;
+        // the height of the operand stack below every loop that was entered through
+        // `loop(...)`.  When such a loop ends, whatever it left behind (for instance the
+        // flag for its else block) is dropped before the caller continues.
+        let mut loop_recursion_bases: Vec<usize> = Vec::new();
         let mut loaded_filters = [None; MAX_LOCALS];
         let mut loaded_tests = [None; MAX_LOCALS];
 
@@ -649,6 +653,9 @@ impl<'env> Executor<'env> {
                     let mut l = state.ctx.pop_frame().current_loop.unwrap();
                     if let Some((target, end_capture)) = l.current_recursion_jump.take() {
                         pc = target;
+                        if let Some(base) = loop_recursion_bases.pop() {
+                            stack.truncate(base);
+                        }
                         if end_capture {
                             stack.push(out.end_capture(state.auto_escape));
                         }
@@ -662,13 +669,11 @@ impl<'env> Executor<'env> {
                 }
                 Instruction::PushLoop(flags) => {
                     a = stack.pop();
-                    ctx_ok!(Self::push_loop(
-                        state,
-                        a,
-                        *flags,
-                        pc,
-                        next_loop_recursion_jump.take()
-                    ));
+                    let recursion_jump = next_loop_recursion_jump.take();
+                    if recursion_jump.is_some() {
+                        loop_recursion_bases.push(stack.len());
+                    }
+                    ctx_ok!(Self::push_loop(state, a, *flags, pc, recursion_jump));
                 }
                 Instruction::Iterate(jump_target) => {
                     match state.ctx.next_loop_item() {
